@@ -114,7 +114,7 @@ Record strtod_res := { sd_bits : N; sd_consumed : nat; sd_erange : bool }.
 
 Definition conv_float (strtod : str -> strtod_res) (value : str) : conv_res N :=
   let r := strtod value in
-  if Nat.ltb (sd_consumed r) (length value) then CInvalid
+  if Nat.eqb (sd_consumed r) 0 || Nat.ltb (sd_consumed r) (length value) then CInvalid
   else if sd_erange r then CRange else COk (sd_bits r).
 
 (* ---- printing integers the way printf("%ld") does ---- *)
